@@ -13,6 +13,7 @@ import datetime as dt
 import io
 from decimal import Decimal
 import itertools
+import os
 import math
 from typing import Any, Dict, List, Optional, Tuple
 
@@ -29,7 +30,8 @@ DOMAINS: Dict[str, List[Any]] = {
     "string": ["", "1", "10", "9", "a", "é", "https://example.org/path/a/1", "https://example.org/path/a/2"],
     "date": [dt.date(1969, 12, 31), dt.date(1970, 1, 1), dt.date(2024, 2, 29)],
     "timestamp": [dt.datetime(1969, 12, 31, 23, 59, 59), dt.datetime(1970, 1, 1),
-                  dt.datetime(2024, 2, 29, 12, 0, 0, 1)],
+                  dt.datetime(2024, 2, 29, 12, 0, 0, 1),
+                  dt.datetime(2021, 3, 14, 2, 10), dt.datetime(2021, 3, 14, 2, 50)],   # inside the US spring-forward gap
     "boolean": [False, True],
     "time": [dt.time(0, 0), dt.time(12, 30, 15, 250000)],
 }
@@ -37,9 +39,10 @@ OPS = ["==", "!=", "<", "<=", ">", ">="]
 # literals of a *different but comparable* Python type than the column's (what users actually pass):
 # datetime on a date column and vice versa, ints on float columns, fractional floats on integer columns
 CROSS_LITERALS: Dict[str, List[Any]] = {
-    "date": [dt.datetime(1970, 1, 1, 12, 0), dt.datetime(1969, 12, 31, 23, 59, 59), dt.datetime(1970, 1, 1)],
-    "timestamp": [dt.date(1970, 1, 1), dt.date(1969, 12, 31), dt.date(2024, 2, 29)],
-    "long": [0.5, 1.5, -0.5, 1.0, float(2 ** 53), 9.3e18, Decimal("1.5"), Decimal("1")],
+    "date": [dt.datetime(1970, 1, 1, 12, 0), dt.datetime(1969, 12, 31, 23, 59, 59), dt.datetime(1970, 1, 1), "1970-01-01"],
+    "timestamp": [dt.date(1970, 1, 1), dt.date(1969, 12, 31), dt.date(2024, 2, 29), dt.datetime(2021, 3, 14, 3, 0), "1970-01-01T00:00:00"],
+    "long": [0.5, 1.5, -0.5, 1.0, float(2 ** 53), 9.3e18, Decimal("1.5"), Decimal("1"), "1", "2"],
+    "string": [b"a", 1],
     "int": [0.5, 1.0],
     "double": [0, 1, -1, Decimal("0.1"), Decimal("0.5"), 2 ** 53 + 1],
     # a Python float (double) literal against a 32-bit column: the engine rounds the members of an IN set to float32
@@ -84,6 +87,16 @@ class C13(Check):
         n = 60 if tier == "quick" else 1500
         for i in range(n):
             yield {"kind": "e2e", "i": i, "seed": seed}
+        # time zones: bounds of date/time/timestamp columns are encoded at write and decoded at read time - in a
+        # non-UTC zone, across a DST gap, and with the table written under one zone and read under another
+        zones = [("JST-9", None), ("EST5EDT,M3.2.0,M11.1.0", None), ("UTC0", "JST-9"), ("PST8PDT,M3.2.0,M11.1.0", "NPT-5:45")]
+        for zi, (zw, zr) in enumerate(zones):
+            for t in ("timestamp", "date", "time"):
+                dom = DOMAINS[t]
+                ms = list(itertools.combinations_with_replacement(range(len(dom) + 1), 2))
+                yield {"kind": "decide", "type": t, "ms": ms, "tz": zw}
+            for i in range(12 if tier == "quick" else 200):
+                yield {"kind": "e2e", "i": 100000 + zi * 1000 + i, "seed": seed, "tz": zw, "tz_read": zr, "temporal": True}
 
     # ------------------------------------------------------------------
     def run_case(self, case: Any, res: CaseResult, tier: str) -> None:
@@ -217,6 +230,8 @@ class C13(Check):
 
         rng = rng_for(case["seed"], "c13", case["i"])
         types = [t for t in gen.TYPES if t != "binary"]
+        if case.get("temporal"):
+            types = ["timestamp", "date", "time", "long"]
         fields = gen.gen_schema(rng, ncols=rng.randint(1, 3), types=types)
         layout = [l for l in gen.gen_layout(rng, fields, max_files=5, max_rows=4,
                                             nan_p=rng.choice([0.0, 0.3]), null_p=rng.choice([0.0, 0.3]))]
@@ -239,6 +254,13 @@ class C13(Check):
                         continue
                     self._check_bounds(df, f["id"], [r[f["name"]] for r in rows], f["type"], res, None)
             data_fields = [f for f in fields if f["name"] != "rid"]
+            if case.get("tz_read"):
+                # the table was written under case["tz"]; it is now re-opened and read under another zone
+                import time as _time
+                os.environ["TZ"] = case["tz_read"]
+                _time.tzset()
+                t = ds.load_table(root)
+                res.count("cross_zone_tables")
             orig = F.prune_files_by_bounds
             calls = {"in": 0, "out": 0}
 
